@@ -51,6 +51,12 @@ def run(tier):
     for _ in range(200 if thorough else 40):
         k = rng.randrange(0, 9)
         cases.append({"kind": "pq", "inputs": [sorted(rng.sample(range(30), rng.randrange(0, 12))) for _ in range(k)]})
+    # many live inputs (the heap gets deep: 5 .. 64 non-empty inputs), short and long, with duplicates across inputs
+    for i in range(400 if thorough else 120):
+        k = 5 + (i % 28) if i % 3 else rng.randrange(29, 65)
+        span = rng.choice([k, 3 * k, 200])
+        cases.append({"kind": "pq", "inputs": [sorted(rng.sample(range(span + 8), rng.randrange(1, 7))) for _ in range(k)],
+                      "cmp": "intdiff" if i % 2 else "int"})
     nb = 12
     batches = [cases[i::nb] for i in range(nb)]
 
